@@ -147,7 +147,7 @@ impl Check for C13 {
     fn work(&self, tier: Tier) -> Vec<WorkItem> {
         let mut ctx = Context::default();
         let n = sysenum::scope(&mut ctx, tier.pick(&[1, 2], &[1, 2, 3])).recipes.len() as u64;
-        vec![WorkItem { mode: "sys", count: n.div_ceil(4) }, WorkItem { mode: "rand", count: tier.pick(100_000, 6_000_000) }]
+        vec![WorkItem { mode: "sys", count: n.div_ceil(4) }, WorkItem { mode: "rand", count: tier.pick(500_000, 20_000_000) }]
     }
     fn evaluations_counter(&self) -> &'static str {
         "simplify_calls"
